@@ -2,7 +2,7 @@ package main
 
 // C31: honest nodes never commit conflicting blocks; bounded progress.
 // Explicit-state / deviation-bounded model checking over the REAL tm2 ConsensusState handlers (never started: no
-// receive routine, no reactor, no timers; see hooks/c31). See search.go / local.go / oracle.go.
+// receive routine, no reactor, no timers; see hooks/c31). See search.go / local.go / oracle.go / validate.go.
 
 import (
 	"flag"
@@ -18,59 +18,140 @@ import (
 )
 
 var (
-	flagBound = flag.Int("bound", -1, "deviation bound override")
-	flagDemo  = flag.Bool("demo", false, "print the synchronous default schedule and exit")
-	flagDevs  = flag.String("devs", "", "deviation kinds override (letters of w x t b c)")
-	flagMaxH  = flag.Int("maxh", 0, "height bound override")
-	flagNoSub = flag.Bool("nosub", false, "no subsets")
-	flagProf  = flag.String("cpuprofile", "", "write a CPU profile")
-	flagScen  = flag.String("scen", "", "only scenarios whose name contains this")
+	flagBound  = flag.Int("bound", -1, "deviation bound override")
+	flagDemo   = flag.Bool("demo", false, "print the synchronous default schedule and exit")
+	flagDevs   = flag.String("devs", "", "deviation kinds override (letters of w x t b c)")
+	flagMaxH   = flag.Int("maxh", 0, "height bound override")
+	flagNoSub  = flag.Bool("nosub", false, "no subsets")
+	flagProf   = flag.String("cpuprofile", "", "write a CPU profile")
+	flagScen   = flag.String("scen", "", "only scenarios whose name contains this")
+	flagBFS    = flag.Int("bfs", -1, "BFS depth override (0 = skip)")
+	flagFilter = flag.Bool("checkfilter", false, "self-check the static no-op filter against the real handlers")
 )
 
+type scen struct {
+	name string
+	p    Params
+}
+
 func main() {
-	debug.SetGCPercent(400)
+	debug.SetGCPercent(300)
+	debug.SetMemoryLimit(10 << 30)
 	r := vk.New("model_checking")
-	r.SetBudget(100*time.Second, 25*time.Minute)
+	r.SetBudget(110*time.Second, 25*time.Minute)
 	if *flagProf != "" {
 		f, _ := os.Create(*flagProf)
 		pprof.StartCPUProfile(f)
 		defer pprof.StopCPUProfile()
 	}
 	sys := newSystem()
+	if r.ReplayIn != "" {
+		replayFile(r, sys)
+		return
+	}
 	if *flagDemo {
 		demo(sys)
 		return
 	}
 	r.Assumptions = append(r.Assumptions,
-		"logical clock: tmtime.Now() is a constant (import rewrite of tm2/pkg/bft/types/time) - all events happen within one clock tick; timeouts are explorer choices",
+		"logical clock: tmtime.Now() is a constant (import rewrite of tm2/pkg/bft/types/time): all events happen within one clock tick; timeouts are explorer choices",
 		"a node's own proposal/votes (internalMsgQueue) are handled by the node before any further peer message (FIFO, run to quiescence) and are published after the node handled them, as the reactor does",
 		"messages are delivered with the original signer as peer id; the reactor's gossip selection is replaced by the explorer (any delivery order it could produce is a schedule of the model)",
+		"per-node step function memoised on a complete deep digest of RoundState + sm.State + ticker + signing record; every violation and a sample of schedules are re-validated by unmemoised replays on fresh real nodes",
+		"byzantine sends that do not change the recipient's behaviour state at once are postponed (they stay available later); withholding is per message and recipient set with three release points (next round, after the prevote step of the next round, never + explicit release)",
 		"small scope: 4 validators of equal power, 1 byzantine (proposer of height 1 round 0), heights <= 2, rounds <= 2, empty mempool, kvstore application",
 	)
-	total := struct{ states, transitions, leaves, prog, progSteps int64 }{}
 	cov := map[string]any{}
 	exhaustive := true
-	type scen struct {
-		name string
-		p    Params
+	e := newEngine(sys)
+	e.checkFilter = *flagFilter
+	var founds []*Found
+	var states, transitions, leaves, prog, progSteps, validated int64
+	collect := func(name string, s *Search) {
+		states += s.states.Load()
+		transitions += s.transitions.Load()
+		leaves += s.leaves.Load()
+		prog += s.progChecks.Load()
+		progSteps += s.progSteps.Load()
+		if s.capped.Load() {
+			exhaustive = false
+			r.MarkCapped()
+		}
+		for k, v := range s.hist {
+			r.OutcomeN(name+"/"+k, v)
+		}
+		var keys []string
+		for k := range s.viols {
+			keys = append(keys, k)
+		}
+		sort.Strings(keys)
+		for _, k := range keys {
+			founds = append(founds, s.viols[k])
+		}
+		// replay-validate a deterministic sample of explored schedules on fresh real nodes (no memo)
+		for _, ls := range s.samples {
+			tr := s.trace(ls.k)
+			if msg := validateSchedule(sys, e, tr, ls.g, !s.p.byzHonest); msg != "" {
+				r.HarnessError("explored schedule does not replay on fresh real nodes (%s): %s", name, msg)
+			}
+			validated += int64(len(tr))
+			if len(tr) > 0 {
+				var devs []string
+				for _, a := range tr {
+					if strings.HasPrefix(a.describe(e), "DEV") {
+						devs = append(devs, a.describe(e))
+					}
+				}
+				sort.Strings(devs)
+				r.Sample(map[string]any{"scenario": name, "deviations_sorted": devs, "final": ls.g.summary(e), "replayed_on_fresh_nodes": true})
+			}
+		}
 	}
+
+	// (1) BFS over all delivery orders, height 1, rounds <= 1
+	depth := 3
+	if r.Thorough() {
+		depth = 4
+	}
+	if *flagBFS >= 0 {
+		depth = *flagBFS
+	}
+	if depth > 0 && *flagScen == "" {
+		t0 := time.Now()
+		s := newSearch(e, Params{maxH: 1, maxR: 1, progR: 4}, r)
+		stride := 256
+		if r.Thorough() {
+			stride = 16
+		}
+		br := s.bfs(depth, stride, r.ParFor)
+		cov["bfs:height1-rounds<=1"] = map[string]any{"depth": br.Depth, "states": br.States, "transitions": br.Transitions, "states_by_depth": br.Levels,
+			"closed": br.Closed, "progress_checks": s.progChecks.Load(), "progress_stride": stride}
+		fmt.Printf("bfs depth=%d: states=%d transitions=%d levels=%v closed=%v progress=%d wall=%.1fs locals=%d computed=%d\n", br.Depth, br.States, br.Transitions, br.Levels, br.Closed,
+			s.progChecks.Load(), time.Since(t0).Seconds(), e.nlocals, e.computed.Load())
+		// "closed" = the BFS frontier ran empty (whole height-1 state space); otherwise all orders are covered exactly to
+		// the declared depth, which is the bounded-exhaustive claim of this phase
+		cov["depth"] = br.Depth
+		collect("bfs", s)
+	}
+
+	// (2) deviation-bounded search around the synchronous schedule
+	base := Params{maxStates: 2500000, maxH: 2, maxR: 2, devW: true, devDrop: true, devT: true, devB: true, devC: true, subsets: false, activeOnly: true, progR: 4, progAll: !r.Quick()}
 	var scens []scen
-	base := Params{maxH: 2, maxR: 2, devW: true, devDrop: true, devT: true, devB: true, devC: true, subsets: false, activeOnly: true, progR: 4, progAll: !r.Quick()}
 	if r.Quick() {
 		a := base
 		a.byzHonest, a.bound = true, 1
 		b := base
-		b.byzHonest, b.bound = false, 1
-		scens = []scen{{"byz-honest-by-default", a}, {"byz-silent-by-default", b}}
+		b.byzHonest, b.bound, b.maxH = false, 2, 1
+		scens = []scen{{"byz-honest-by-default/h<=2", a}, {"byz-silent-by-default/h<=1", b}}
 	} else {
 		a := base
 		a.byzHonest, a.bound = true, 2
 		b := base
 		b.byzHonest, b.bound = false, 2
-		scens = []scen{{"byz-honest-by-default", a}, {"byz-silent-by-default", b}}
+		c := base
+		c.byzHonest, c.bound, c.maxH = false, 3, 1
+		scens = []scen{{"byz-silent-by-default/h<=2", b}, {"byz-honest-by-default/h<=2", a}, {"byz-silent-by-default/h<=1", c}}
 	}
-	e := newEngine(sys)
-	var founds []*Found
 	for _, sc := range scens {
 		if *flagBound >= 0 {
 			sc.p.bound = *flagBound
@@ -88,67 +169,78 @@ func main() {
 		if *flagNoSub {
 			sc.p.subsets = false
 		}
+		if r.Expired() {
+			exhaustive = false
+			cov["scenario:"+sc.name] = "skipped (budget)"
+			continue
+		}
 		t0 := time.Now()
 		s := newSearch(e, sc.p, r)
 		s.run(r.ParFor)
-		total.states += s.states.Load()
-		total.transitions += s.transitions.Load()
-		total.leaves += s.leaves.Load()
-		total.prog += s.progChecks.Load()
-		total.progSteps += s.progSteps.Load()
-		if s.capped.Load() {
-			exhaustive = false
-			r.MarkCapped()
-		}
-		cov["scenario:"+sc.name] = map[string]any{"bound": sc.p.bound, "states": s.states.Load(), "transitions": s.transitions.Load(), "states_by_deviation_layer": s.byLayer,
-			"leaves": s.leaves.Load(), "progress_checks": s.progChecks.Load(), "max_rounds_to_commit_in_continuation": s.maxProgRounds.Load(), "capped": s.capped.Load()}
-		fmt.Printf("scenario %s bound=%d: states=%d transitions=%d layers=%v leaves=%d progress=%d (max %d rounds) wall=%.1fs locals=%d computed=%d\n", sc.name, sc.p.bound,
-			s.states.Load(), s.transitions.Load(), s.byLayer, s.leaves.Load(), s.progChecks.Load(), s.maxProgRounds.Load(), time.Since(t0).Seconds(), e.nlocals, e.computed.Load())
-		for k, v := range s.hist {
-			r.OutcomeN(sc.name+"/"+k, v)
-		}
-		var keys []string
-		for k := range s.viols {
-			keys = append(keys, k)
-		}
-		sort.Strings(keys)
-		for _, k := range keys {
-			f := s.viols[k]
-			f.Key = k
-			founds = append(founds, f)
-			_ = sc
-		}
-		for _, l := range s.visitedSample(3) {
-			r.Sample(l)
-		}
+		cov["scenario:"+sc.name] = map[string]any{"bound": sc.p.bound, "max_height": sc.p.maxH, "max_round": sc.p.maxR, "states": s.states.Load(), "transitions": s.transitions.Load(),
+			"states_by_deviation_layer": s.byLayer, "leaves": s.leaves.Load(), "progress_checks": s.progChecks.Load(),
+			"max_rounds_to_commit_in_continuation": s.maxProgRounds.Load(), "capped": s.capped.Load()}
+		fmt.Printf("scenario %s bound=%d: states=%d transitions=%d layers=%v leaves=%d progress=%d (max %d rounds) capped=%v wall=%.1fs locals=%d computed=%d\n", sc.name, sc.p.bound,
+			s.states.Load(), s.transitions.Load(), s.byLayer, s.leaves.Load(), s.progChecks.Load(), s.maxProgRounds.Load(), s.capped.Load(), time.Since(t0).Seconds(), e.nlocals, e.computed.Load())
+		collect(sc.name, s)
 	}
+	if e.filterBad.Load() > 0 {
+		r.HarnessError("static no-op filter disagrees with the real handlers in %d cases", e.filterBad.Load())
+	}
+	seen := map[string]bool{}
 	for _, f := range founds {
-		r.Violation(f.Key, map[string]any{"what": f.Detail, "schedule": f.Trace})
+		if seen[f.Key] {
+			continue
+		}
+		seen[f.Key] = true
+		if v := validate(sys, e, f); v != "" {
+			r.HarnessError("violation %s does not replay on fresh real nodes: %s\n%s", f.Key, v, strings.Join(describeAll(e, f.Trace), "\n"))
+		}
+		r.Violation(f.Key, map[string]any{"what": f.Detail, "schedule": describeAll(e, f.Trace), "replayed_twice_on_fresh_nodes": true,
+			"actions": recordActions(e, f.Trace), "byzantine_silent_by_default": f.silent})
 	}
-	r.EvalN(total.transitions)
+	r.EvalN(transitions)
 	e.mu.Lock()
 	for _, l := range e.byDigest {
 		r.Distinct(l.name())
 	}
 	e.mu.Unlock()
-	cov["states"] = total.states
-	cov["transitions"] = total.transitions
-	cov["traces_validated_against_impl"] = total.transitions
-	cov["leaves"] = total.leaves
-	cov["progress_continuations"] = total.prog
-	cov["progress_continuation_steps"] = total.progSteps
+	cov["states"] = states
+	cov["transitions"] = transitions
+	cov["traces_validated_against_impl"] = transitions
+	cov["leaves"] = leaves
+	cov["progress_continuations"] = prog
+	cov["progress_continuation_steps"] = progSteps
 	cov["distinct_local_states"] = e.nlocals
-	cov["real_handler_steps_computed"] = e.computed.Load()
-	cov["real_handler_calls"] = e.calls.Load()
-	cov["replayed_inputs"] = e.replayed.Load()
-	cov["fresh_node_builds"] = e.builds.Load()
+	// work counters of the memoising engine: they depend on goroutine timing (cache hits), not on what was explored
+	cov["engine_work_counters_timing_dependent"] = map[string]any{"real_handler_steps_computed": e.computed.Load(), "real_handler_calls": e.calls.Load(),
+		"statically_filtered_noops": e.filtered.Load(), "replayed_inputs": e.replayed.Load(), "fresh_node_builds": e.builds.Load(),
+		"unmemoised_replay_steps_of_sampled_schedules": validated}
 	cov["messages"] = e.msgs.size()
 	pprof.StopCPUProfile()
-	r.Finish("agreement + validity + no double sign + voting rules on every transition; bounded progress / deadlock from every leaf", exhaustive, cov)
+	r.Finish("agreement + commit validity + no double sign + locking/precommit/proposal rules on every transition; bounded progress and deadlock freedom from every leaf", exhaustive, cov)
 }
 
-func (s *Search) visitedSample(n int) []any {
-	var out []any
+func describeAll(e *Engine, tr []Action) []string {
+	out := make([]string, len(tr))
+	for i, a := range tr {
+		out[i] = a.describe(e)
+	}
+	return out
+}
+
+func (g *GState) summary(e *Engine) []string {
+	var out []string
+	for i, l := range g.loc {
+		if l == nil {
+			continue
+		}
+		var c []string
+		for _, h := range l.obs.Committed {
+			c = append(c, e.sys.labelHex(h))
+		}
+		out = append(out, fmt.Sprintf("n%d(v%d) h%d/r%d/%v locked=%s@%d committed=%v", i, e.vals[i], l.obs.H, l.obs.R, l.obs.Step, l.obs.Locked, l.obs.LockedRound, c))
+	}
 	return out
 }
 
@@ -167,12 +259,6 @@ func demo(sys *System) {
 		g = ng
 	}
 	fmt.Println("hist", s.hist, "viols", len(s.viols), "computed", e.computed.Load(), "calls", e.calls.Load())
-	for k, f := range s.viols {
-		fmt.Println("VIOL", k, f.Detail)
-		for _, t := range f.Trace {
-			fmt.Println("   ", t)
-		}
-	}
 }
 
 type neverExpired struct{}
